@@ -75,3 +75,23 @@ def replay_window(vc, unit):
     res = dec(out["result"])
     rec["native_result"] = res
     return bool(res.get("violates")), rec
+
+
+def replay_api(vc, unit):
+    """native replay of an inverter-level scenario obligation through a scripted transport"""
+    from pyvc import units
+    from pyvc.native import dec
+    w = vc.get("witness") or {}
+    if "script" not in w or "family" not in w:
+        return None
+    clause = vc["name"].rsplit("/", 1)[-1]
+    task = {"op": "func", "module": "contracts.inverter_native", "func": "replay_readonly",
+            "kwargs": {"family": w["family"], "method": w["method"], "args": w.get("args", []), "script": w["script"],
+                       "variant": w.get("variant", 0), "check": clause}}
+    out = units.native_batch([task])[0]
+    rec = {"kind": "script", "native_task": task, "native_result": out}
+    if not out["ok"]:
+        return None, rec
+    res = dec(out["result"])
+    rec["native_result"] = res
+    return bool(res.get("violates")), rec
